@@ -3,7 +3,7 @@ From Coq Require Import NArith List Extraction ExtrOcamlBasic.
 From SdCodec Require Import CodecModel CodecSpec.
 Extraction Language OCaml.
 Extraction "../../build/extract/codec/codecx.ml"
-  from_fat serialize_to_fat from_calendar serialize get_entry dir_entry_new
+  from_fat serialize_to_fat fat_time_of fat_date_of from_calendar serialize get_entry dir_entry_new
   raw_attr create_time create_date last_access_data first_cluster_hi write_time write_date
   first_cluster_lo file_size first_cluster_fat32
   is_end is_valid is_lfn matches csum create_from_str display
